@@ -162,6 +162,11 @@ void DiscoveryAgent::MaybeMuteNextDevice() {
  * Called when we mute a device during incremental discovery.
  */
 void DiscoveryAgent::IncrementalMuteComplete(bool status) {
+  if (m_uid_ranges.empty()) {
+    // Abort() was called
+    return;
+  }
+
   if (!status) {
     m_uids.RemoveUID(m_muting_uid);
     OLA_WARN << "Unable to mute " << m_muting_uid << ", device has gone";
@@ -216,6 +221,11 @@ void DiscoveryAgent::SendDiscovery() {
  * @param length the length of the response, 0 if no response was received.
  */
 void DiscoveryAgent::BranchComplete(const uint8_t *data, unsigned int length) {
+  if (m_uid_ranges.empty()) {
+    // Abort() was called
+    return;
+  }
+
   OLA_INFO << "BranchComplete, got " << length;
   if (length == 0) {
     // timeout
@@ -343,6 +353,11 @@ void DiscoveryAgent::BranchComplete(const uint8_t *data, unsigned int length) {
  * Called when we successful mute a device during the branch stage.
  */
 void DiscoveryAgent::BranchMuteComplete(bool status) {
+  if (m_uid_ranges.empty()) {
+    // Abort() was called
+    return;
+  }
+
   m_mute_attempts++;
   if (status) {
     m_uids.AddUID(m_muting_uid);
